@@ -27,10 +27,12 @@ pub fn check_xml_name<const N: usize>(raw: &[u8]) -> Outcome {
 
 /// K2: escaping of values: no string payload can introduce markup.
 /// raw: [c, target, level]; `list`: escape_list (text / attribute value) or escape_item (xs:list item)
-pub fn check_se_escape(raw: &[u8], list: bool) -> Outcome {
+pub fn check_se_escape(raw: &[u8], list: bool, fixed: Option<(u8, u8)>) -> Outcome {
     let c = raw[0];
-    let target = raw[1] % 3;
-    let level = raw[2] % 3;
+    let (target, level) = match fixed {
+        Some(tl) => tl,
+        None => (raw[1] % 3, raw[2] % 3),
+    };
     require!(c < 0x80);
     let buf = [c];
     let s = unsafe { core::str::from_utf8_unchecked(&buf) };
